@@ -407,6 +407,64 @@ example : cmdPrte exTask = .prte 3 2 [(5, 2), (7, 1)] := by decide
 example : (cmdSrun ⟨20, false, 8⟩ exTask) = .srun (some 2) 3 2 [5, 7] false := by decide
 example : (exTask.slots.map (fun s => (bindEntry s.cores))) = [.range 0 1, .list [2, 5], .range 0 1] := by decide
 example : palsFill 2 [5, 7] 3 = [(5, 2), (7, 1)] := by decide
+/-! ## JSRUN -/
+
+theorem erfFrom_ranks (rs : List RSet) : ∀ base, (erfFrom base rs).flatMap (·.ranks) = List.range' base (totalRanks rs) := by
+  induction rs with
+  | nil => intro base; simp [erfFrom, totalRanks]
+  | cons r rs ih =>
+    intro base
+    simp only [erfFrom, List.flatMap_cons, ih, totalRanks, List.map_cons, List.sum_cons]
+    rw [List.range'_append_1]
+
+/-- **JSRUN, explicit resource file**: for every list of resource sets (any number of sets, any number
+    of ranks per set, any cores and GPUs) the file names the rank ids 0 .. N-1, each exactly once, N being
+    the number of ranks of the placement; line i carries the node, the cores of every rank and the GPUs of
+    resource set i, and as many ranks as that set has -/
+theorem C09_jsrun_erf (rs : List RSet) :
+    (erfFrom 0 rs).flatMap (·.ranks) = List.range (totalRanks rs)
+    ∧ (erfFrom 0 rs).map (fun l => (l.host, l.cpus, l.gpus)) = rs.map (fun r => (r.node, r.ranks, r.gpus))
+    ∧ (erfFrom 0 rs).map (fun l => l.ranks.length) = rs.map (fun r => r.ranks.length) := by
+  refine ⟨?_, ?_, ?_⟩
+  · rw [erfFrom_ranks, List.range_eq_range']
+  · have : ∀ base, (erfFrom base rs).map (fun l => (l.host, l.cpus, l.gpus)) = rs.map (fun r => (r.node, r.ranks, r.gpus)) := by
+      induction rs with
+      | nil => intro _; rfl
+      | cons r rs ih => intro base; simp only [erfFrom, List.map_cons, ih]
+    exact this 0
+  · have : ∀ base, (erfFrom base rs).map (fun l => l.ranks.length) = rs.map (fun r => r.ranks.length) := by
+      induction rs with
+      | nil => intro _; rfl
+      | cons r rs ih => intro base; simp only [erfFrom, List.map_cons, ih, List.length_range']
+    exact this 0
+
+/-- **JSRUN, resource set flags**: `-n` times `-a` is the number of ranks of the placement whenever the
+    resource sets have the same number of ranks (what the jsrun scheduler produces); the nodes are left
+    to jsrun (count only, like APRUN) -/
+theorem C09_jsrun_count (tpc gpn : Nat) (omp : Bool) (rs : List RSet) (o : JsrunOpts) (h : jsrunOpts tpc gpn omp rs = some o)
+    (hu : ∀ r ∈ rs, r.ranks.length = o.a) : o.n * o.a = totalRanks rs := by
+  have hn : o.n = rs.length := by
+    unfold jsrunOpts at h
+    cases rs with
+    | nil => cases h
+    | cons f fs =>
+      simp only at h
+      cases hf : f.ranks with
+      | nil => rw [hf] at h; cases h
+      | cons r0 rr => rw [hf] at h; simp only [Option.some.injEq] at h; rw [← h]
+  rw [hn]
+  unfold totalRanks
+  clear h hn
+  induction rs with
+  | nil => simp
+  | cons r rs ih =>
+    rw [List.map_cons, List.sum_cons, List.length_cons, ← ih (fun x hx => hu x (List.mem_cons_of_mem _ hx)),
+        hu r List.mem_cons_self, Nat.add_mul, Nat.one_mul, Nat.add_comm]
+
+/-- three sets of two ranks: the file names ranks 0..5 (and not 0,1,1,2,2,3) -/
+example : (erfFrom 0 [⟨1, [[0], [1]], [0]⟩, ⟨1, [[2], [3]], [1]⟩, ⟨2, [[0], [1]], [0]⟩]).map (·.ranks)
+    = [[0, 1], [2, 3], [4, 5]] := by decide
+
 /-- outside the hypothesis of `palsFill_uniform` the ranks do NOT fall where the placement has
     them (host 5: 1 rank, host 7: 2 ranks): this case is not claimed -/
 example : palsFill 2 [5, 7] 3 ≠ [(5, 1), (7, 2)] := by decide
